@@ -180,9 +180,11 @@ static void del (mat_t *a, int i, int j)
 	vf_stat_add (st_trans, 1);
 }
 
-static void run_script (int si, int pat, int ord, int thorough)
+static void run_script_rc (int R, int C, int pat, int ord, int thorough);
+static void run_script (int si, int pat, int ord, int thorough) { run_script_rc (SHAPES[si].R, SHAPES[si].C, pat, ord, thorough); }
+static void run_script_rc (int R, int C, int pat, int ord, int thorough)
 {
-	int R = SHAPES[si].R, C = SHAPES[si].C, i, j, w;
+	int i, j, w;
 	long n, q;
 	cell_t *cl;
 	mat_t A, B;
@@ -346,13 +348,24 @@ static void item (long it, void *arg)
 	run_script (si, pat, ord, g_thorough);
 }
 
+/* contiguous sweep: EVERY dimension d in 5..220 (thorough ..500) as a column count (with a row count derived from d) and, every
+ * third d, as a row count; fill pattern and insertion order rotating with d */
+static void item_sweep (long it, void *arg)
+{
+	int d = 5 + (int) it;
+	(void) arg;
+	vf_slot_set_prop ("C17");
+	run_script_rc (3 + (d * 7) % 29, d, d % NPAT, d % NORD, g_thorough);
+	if (d % 3 == 0) run_script_rc (d, 3 + (d * 5) % 31, (d + 1) % NPAT, (d + 2) % NORD, g_thorough);
+}
+
 static void item_replay (long it, void *arg)
 {
 	int R, C, pat, ord, si;
 	(void) it; (void) arg;
 	vf_slot_set_prop ("C17");
 	if (sscanf (vf_replay_case (), "big shape=%dx%d pattern=%d(%*[^)]) order=%d", &R, &C, &pat, &ord) != 4) return;
-	for (si = 0; si < NSHAPES; si++) if (SHAPES[si].R == R && SHAPES[si].C == C) run_script (si, pat, ord, g_thorough);
+	(void) si; run_script_rc (R, C, pat, ord, g_thorough);
 }
 
 int main (int argc, char **argv)
@@ -362,6 +375,7 @@ int main (int argc, char **argv)
 	st_states = vf_stat_id ("states"); st_trans = vf_stat_id ("transitions"); st_exec = vf_stat_id ("executions"); st_dn = vf_stat_id ("distinct_nontrivial"); st_checks = vf_stat_id ("full_structure_checks");
 	if (vf_replay_case ()) { vf_pool_run (1, item_replay, NULL, 0); vf_finish (); return 0; }
 	vf_pool_run ((long) NSHAPES * NPAT * NORD, item, NULL, 0);
+	vf_pool_run (g_thorough ? 496 : 216, item_sweep, NULL, 0);
 	vf_stat_add (st_exec, vf_stat_get (st_states));
 	vf_stat_add (st_dn, vf_stat_get (st_states));
 	vf_outcome ("big_scripts_run", vf_stat_get (st_states));
